@@ -210,6 +210,11 @@ def run(ctx):
                       "parent's current Announce) - shared with C06 FM-7", floor=1)
     from rules import c06 as _c06
     _c06.check_eviction(rep, prog, "ANN-6")
+    rep.rule("ANN-7", "the state decision yields a recommendation for every port state the standard's table has a row for "
+                      "(a Master port with no foreign master still gets M1/M2, which is what refreshes the data sets the "
+                      "Announces are built from) - shared with C05 BMCA-7", floor=3)
+    from rules import share as _share
+    _share.share(ctx, rep, "c05", "BMCA-7", "ANN-7", only=lambda f, c_: f.endswith("::calculate_recommended_state"))
 
     # ---------------- ANN-3
     try:
